@@ -366,7 +366,7 @@ def _worker(job):
                 fh.write(txt)
         idx = {os.path.realpath(os.path.join(tmp, F["path"])): i for i, F in enumerate(D["files"])}
         try:
-            with impl.time_limit(10):
+            with impl.time_limit(40):
                 g = Grammar.from_file(os.path.join(tmp, D["files"][0]["path"]))
         except BaseException as e:  # noqa
             kind = impl.exc_kind(e)
@@ -747,6 +747,12 @@ def structural(D, S, r):
                 if got[0] == 0 and got[1] == ".".join(path[g] + (x,)) and any(
                         xx == x and v == got[2] for xx, v in D["files"][g]["terms"]):
                     is_orig = True
+            if (kind == "nt" and got[0] == 1 and got[2] == wf and got[3] == wn and got[4] and orig
+                    and any(k2 == fq2 and (f2, n2) in orig for k2, f2, n2 in r["nts"]
+                            for fq2 in [got[1]])):
+                # the right (overriding) object, but its fqn was registered first by the overridden
+                # original reached by some other user: same mechanism
+                is_orig = True
             if is_orig:
                 kf_o.append(what)
             elif (got[0] == 0 and kind == "ti" and f != 0
@@ -815,6 +821,9 @@ def judge(ctx, D, S, r, mv, stats):
     # ---- 1. correspondence model vs impl
     if mv["status"] == ["fuel"]:
         stats["fuel"] += 1
+    elif r["status"][0] == "crash" and r["status"][1] == "Timeout":
+        stats["timeouts"] += 1      # judged in run(): more than a handful is a violation
+        return False
     elif mv != iv:
         diff = [k for k in ("status", "reg", "nts", "ts", "prods") if mv.get(k) != iv.get(k)]
         stats["disagree"] += 1
@@ -831,7 +840,8 @@ def judge(ctx, D, S, r, mv, stats):
     if r["status"][0] == "crash":
         what = "Grammar.from_file crashed with %s: %s" % (r["status"][1], r["status"][2])
         if (r["status"][1] == "AttributeError" and "resolve_symbol_by_name" in r["status"][2]
-                and mv["status"] == ["crash"] and has_cycle(D) and S["overrides"] and KF_CYC in kf_names):
+                and mv["status"] == ["crash"] and has_cycle(D) and KF_CYC in kf_names
+                and any("." in lhs for F in D["files"] for lhs, _ in F["prods"] + F["terms"])):
             ctx.known_finding(KF_CYC, "override validation through an import cycle hits an import still being "
                               "loaded (pgfile is None -> AttributeError); first seen: %s" % pub["files"])
             stats["kf_cycle"] += 1
@@ -849,6 +859,18 @@ def judge(ctx, D, S, r, mv, stats):
         return clean
     # valid by the specification
     if r["status"][0] == "err":
+        # the rejected reference may sit in a rule that an override replaces: the impl meets it only
+        # because some user reached the overridden original (override finding)
+        import re as _re
+        quoted = _re.findall(r'"([^"]+)"', r["status"][2])
+        holders = [(f, lhs) for f, F in enumerate(D["files"]) for lhs, rhs in F["prods"] for e in rhs
+                   if e[0] == "ref" and any(q == e[1] or q.endswith("." + e[1]) for q in quoted)]
+        if (r["status"][1] in (5, 6) and holders and all(h in S["overrides"] for h in holders)
+                and mv["status"] == ["err", r["status"][1]] and KF_OVR in kf_names):
+            stats["kf_override"] += 1
+            ctx.known_finding(KF_OVR, "an overridden rule is still processed because a user reached the original: "
+                              "%s; first seen: %s" % (r["status"][2], pub["files"]))
+            return False
         ctx.violation("valid modular grammar rejected: %s" % r["status"][2], rep, no_input=False,
                       key="rejects-valid-%s" % r["status"][1])
         return False
@@ -975,6 +997,9 @@ def run(ctx):
                     samples.append({"directory": public(D), "registry": r["reg"],
                                     "nonterminals": [x[0] for x in r["nts"]],
                                     "accepted_inputs": [w for w, v in r["mod"].items() if v[0] == "ok"][:5]})
+    if stats["timeouts"] > max(3, len(dirs) // 200):
+        ctx.violation("Grammar.from_file timed out on %d of %d generated directories" % (stats["timeouts"], len(dirs)),
+                      {"timeouts": stats["timeouts"]}, no_input=True)
     cov = {
         "evaluations": stats["inputs_compared"] + stats["cases"],
         "distinct_nontrivial": len(distinct),
